@@ -13,7 +13,8 @@ CLAIMED = {
                   "TLC transition replayed on the real SrtlaConnection/shell functions; recorded random histories "
                   "of the real code validated by TLC against the set model"
               "; the UNMODIFIED event loop (run_sender_with_config on a paused clock, real sockets) recorded end to end and "
-              "validated by TLC against the observer Trace_Loop.tla (the in-flight count each keepalive reports equals what left on that socket minus what the receiver has acknowledged since)",
+              "validated by TLC against the observer Trace_Loop.tla (the in-flight count each keepalive reports equals what left on that socket minus what the receiver has acknowledged since)"
+              "; loop runs also with loss reports (nak / busy schedules), ACK lists that come back on another uplink (3 and 4 links pinned) and the in-flight count of every stats snapshot",
         text="TLC explores the complete reachable graph of the code-shaped accounting model (packet log, high-water "
              "mark, fast/slow cumulative-ACK path) and checks it refines the property's per-link set model; each "
              "transition of that graph is then executed on real connections through take_batch, "
@@ -83,7 +84,7 @@ CLAIMED["C04"] = dict(
     technique="TLA+ Selection.tla Routed/Eligible operators checked by TLC on the enumerated space x packet kind x "
               "critical window; every vector replayed through the real handle_srt_packet"
               "; the UNMODIFIED event loop (run_sender_with_config on a paused clock, real sockets) recorded end to end and "
-              "validated by TLC against the observer Trace_Loop.tla (unique copies leave only from sockets REG3 has reached, on links heard from within the timeout; outage / receiver-restart / send-failure schedules)",
+              "validated by TLC against the observer Trace_Loop.tla (unique copies leave only from sockets REG3 has reached, on links heard from within the timeout; outage / receiver-restart / send-failure schedules); loop runs include total blackouts with an uplink that never registered: a datagram accepted once a session was established never leaves from a socket REG3 has not reached",
     text="For every enumerated link-state vector, packet kind (data / retransmit-flagged / control) and critical "
          "window state TLC checks that the routed link is eligible, and the real shell entry point handle_srt_packet "
          "is run on the materialised vector: the link whose queue received the unique copy must be registered, not "
@@ -106,7 +107,7 @@ CLAIMED["C12"] = dict(
     engine="tlc+stallguard+selection", design_ref="4.12",
     technique="TLA+ frame property (Select leaves liveness/accounting unchanged) and GuardOffClears on the StallGuard "
               "state graph; GuardOffIsBaseline on the Selection vectors; replay of every Select transition and "
-              "vector on the real selector with a field-by-field projection compared around the call; the UNMODIFIED event loop (run_sender_with_config on a paused clock, real sockets) recorded end to end and validated by TLC against the observer Trace_Loop.tla (guard switched off at run time, also in the middle of an outage while the victim is latched: no link is reported latched once a datagram has been routed, engagement counters stand still)",
+              "vector on the real selector with a field-by-field projection compared around the call; the UNMODIFIED event loop (run_sender_with_config on a paused clock, real sockets) recorded end to end and validated by TLC against the observer Trace_Loop.tla (guard switched off at run time, also in the middle of an outage while the victim is latched: no link is reported latched once a datagram has been routed, engagement counters stand still); ShellSim recordings validated by TLC against Trace_ShellGuard.tla: with the guard off no flag, latch or pull is left standing after a routing decision, whichever path through the real handle_srt_packet made it (guard switched off while a link is held, followed by a retransmission)",
     text="Every Select transition of the timed stall-guard graph and every enumerated selector vector is executed "
          "on the real select_connection_idx with a projection of all liveness / accounting fields of every link "
          "taken before and after; with the guard off every flag, latch and pull must be cleared and the decision "
@@ -117,7 +118,7 @@ CLAIMED["C13"] = dict(
     engine="tlc+stallguard", design_ref="4.13",
     technique="TLA+ timed per-link latch/pull machine with an independent monitor of the statement; TLC on the "
               "complete state graphs; every Select transition replayed on the real selector; recorded ms-resolution "
-              "histories validated by TLC against the monitor; the UNMODIFIED event loop (run_sender_with_config on a paused clock, real sockets) recorded end to end and validated by TLC against the observer Trace_Loop.tla (a latch holds for at least two staleness windows of at least one second: the published engagement counter of a link never rises twice within two consecutive stats periods on the same registration with the guard on)",
+              "histories validated by TLC against the monitor; the UNMODIFIED event loop (run_sender_with_config on a paused clock, real sockets) recorded end to end and validated by TLC against the observer Trace_Loop.tla (a latch holds for at least two staleness windows of at least one second: the published engagement counter of a link never rises twice within two consecutive stats periods on the same registration with the guard on); ShellSim recordings validated by TLC against Trace_ShellGuard.tla: a link's delivery-proof stamp is renewed only while an SRTLA ACK or a keepalive echo is processed",
     text="TLC explores the complete graph of the per-link stall machine (decisions, proofs with and without a byte, "
          "inbound bytes, load and RTT changes, disconnects, resets, guard toggles, clock steps; ceiling above and "
          "below the floor) and checks the rise / never-blind / rejoin-dwell / pull-release rules against a monitor "
@@ -201,7 +202,7 @@ CLAIMED["C08"] = dict(
               "MC_Lifecycle model checked by TLC; ShellSim fault / adversarial-repair schedules validated by TLC "
               "against the monitor"
               "; the UNMODIFIED event loop (run_sender_with_config on a paused clock, real sockets) recorded end to end and "
-              "validated by TLC against the observer Trace_Loop.tla (socket re-created only after the configured silence or a send failure, retries >= 1 s / 5 s apart, registered again in time after repair / receiver restart / send failure)",
+              "validated by TLC against the observer Trace_Loop.tla (socket re-created only after the configured silence or a send failure, retries >= 1 s / 5 s apart, registered again in time after repair / receiver restart / send failure); loop runs include sockets that cannot be re-opened (the loop's UplinkBinder refuses, every attempt logged with its virtual time: retries keep their distance whether they succeed or not), total blackouts, a lost first REG1, and the registration bound for uplinks whose path delivers from the start or that a reload has added",
     text="TLC checks the life-cycle design (time-out, retry spacing, REG3 rejoin, keepalive liveness, fault budget) "
          "on the complete 2-link graph incl. bounded rejoin (holds for 6 s, refuted for 4 s); recorded runs of the "
          "real housekeeping / reconnect / uplink arms under loss, black-holes, lost replies, receiver amnesia, "
@@ -247,7 +248,7 @@ CLAIMED["C15"] = dict(
               "layout clauses on every input of an enumerated input space and exports each input with the reference "
               "outputs for differential replay through every pub fn of crate srtla-protocol; frames decoded and built "
               "by the real code (every length 0..1500 of every type code, mutated and random frames) are re-decoded by "
-              "TLC from the logged bytes",
+              "TLC from the logged bytes; every enumerated and recorded frame is also consumed by a real SrtlaRegistrationManager that awaits REG2 on that uplink (totality at the place where the 256-byte id is decoded; accepted iff a REG2 frame of full length, adopted id = bytes 2..258)",
     text="Codec.tla defines packet type, data sequence number / retransmit flag, ParseSrtAck, ParseSrtNak (as segments, "
          "32-bit numbers as 16-bit pairs, cap 1000 on range expansion), ParseSrtlaAck, keepalive timestamp / "
          "connection info and the builders from the layouts; TLC checks on the reference that the NAK list never "
@@ -273,7 +274,7 @@ CLAIMED["C20"] = dict(
               "tokio mpsc channels, verif-hooks scheduling points); recorded random schedules validated by TLC "
               "against the property-level hub"
               "; the UNMODIFIED event loop (run_sender_with_config on a paused clock, real sockets) recorded end to end and "
-              "validated by TLC against the observer Trace_Loop.tla (with subscribers that never read and a second publisher task, the loop stays live: flush deadline and keepalive cadence hold)",
+              "validated by TLC against the observer Trace_Loop.tla (with subscribers that never read and a second publisher task, the loop stays live: flush deadline and keepalive cadence hold); over a real control_socket connection bursts of 2 / 5 / 40 events queued before the connection's task runs again must reach the client in publication order (Trace_SockPush.tla)",
     text="TLC explores every interleaving, at the await points, of subscribe (AllocId / Insert), unsubscribe, publish "
          "(Fanout / Prune) by 2-3 tasks and subscriber-side receive / close over 2 channels of capacity 1-2, both "
          "topics, shared channels, up to 3 subscriptions and 3 publishes (7e6-2e7 transitions), and checks unique "
@@ -344,7 +345,7 @@ CLAIMED["C18"] = dict(
               "invariants on the complete graph; every TLC transition rendered into several concrete lines and executed "
               "on all entry points (dispatch, dispatch_async with and without hub, a control_socket Unix stream); "
               "recorded request sequences and arbitrary lines validated by TLC; TLA+ per-field load/store interleaving "
-              "model of the atomics and TLC linearisation of a recorded multi-thread stress",
+              "model of the atomics and TLC linearisation of a recorded multi-thread stress; on the socket stream a request that sits behind a backlog of 300 pushed events (more than the connection's queue holds) must still be answered (Trace_SockPush.tla)",
     text="TLC takes every abstract line (blank / garbage / not UTF-8 / non-request JSON / request x version x id kind x method x "
          "well-typed, ill-typed, missing and extreme parameters: 540-564 lines) from every reachable configuration and "
          "checks one-response-iff-id, the meaning of each error code, notifications applied, set_* visible in the next "
